@@ -44,6 +44,10 @@ TContains == /\ Ev.op = "Contains"
                 bad' = IF Ev.res = truth THEN bad
                        ELSE IF Ev.res = (\E u \in WordsOfPerm[Ev.s] : PinContainsWord(Ev.w, u, TRUE)) THEN Flag("dev:FactorsMayTouch")
                        ELSE Flag("ContainmentReflected")
+\* a pattern of length 4-5 taken from the points of the pin permutation of a longer word: it is contained, so one of its pin
+\* words has to be found (a miss is never the listed deviation, which only over-reports)
+TFound == /\ Ev.op = "Found"
+          /\ bad' = IF PContains(PinPerm(Ev.w), Ev.s) /\ ~Ev.res THEN Flag("ContainmentReflected") ELSE bad
 TFactors == Ev.op = "Factors" /\ bad' = IF Ev.res = PinFactors(Ev.w) THEN bad ELSE Flag("Factors")
 TSpToM == /\ Ev.op = "SpToM"
           /\ LET want == PinSPtoMFast(Ev.w) IN
@@ -61,6 +65,6 @@ TOcc == /\ Ev.op = "Occ"
 TOccSP == /\ Ev.op = "OccSP"
           /\ \E ideal \in {{t[1] - 1 : t \in PinOccTuplesQ(Ev.w, Ev.u, FALSE)}} :
                 bad' = OccVerdict(Ev.res, Ev.c, ideal, ideal, "StrictFactorOccurrences")
-TNext == l <= Len(Trace) /\ l' = l + 1 /\ (TPerm \/ TQuad \/ TContains \/ TFactors \/ TSpToM \/ TMToSp \/ TOcc \/ TOccSP)
+TNext == l <= Len(Trace) /\ l' = l + 1 /\ (TPerm \/ TQuad \/ TContains \/ TFound \/ TFactors \/ TSpToM \/ TMToSp \/ TOcc \/ TOccSP)
 TraceDone == l = Len(Trace) + 1 => PrintT(ToJson([verdict |-> bad, drift |-> <<>>, n |-> Len(Trace)]))
 =============================================================================
